@@ -207,6 +207,14 @@ finding(
     "P75", ["C14"], "fixed", "sqlalchemy parsers on an ordinary hand-written model: Column options `index=`, `unique=` and a `comment=` next to a `doc=` stay behind as extra keys of the parameter entry", "33a9025",
     witnesses={"C14": [{"both": False, "form": "class", "kind": "sql-handshaped", "names": ["a"], "src": "class Foo(Base):\n    \"\"\"\n    The Foo model\n    \"\"\"\n    __tablename__ = \"foo\"\n\n    a = Column(String(32), index=True, unique=True, doc='the a', comment='the a again')\n"}]},
 )
+finding(
+    "P76", ["C13"], "fixed", "sync_properties with a keyword-only INPUT parameter `f.a` (which cdd cannot address) silently took the parameter `a` of a later function named `a` instead of rejecting the path: the target lost / got the wrong annotation", "a22ccbc",
+    witnesses={"C13": [{"isrc": "from typing import *\n\ndef f(k: int = -2, *, a: Optional[int] = 5):\n    return 0.5\n\ndef a(b, a):\n    return 0.5\n", "osrc": "from typing import *\n\ndef apxv(a):\n    return 1\n\n", "ip": ["f.a", "kwarg", ["a", "Optional[int]", "5"], {"idx": 0, "names": ["k", "a"], "hasdef": True, "first": None}], "op": ["apxv.a", "arg", ["a", None, None], {"idx": 0, "names": ["a"], "hasdef": False, "first": None}], "wrap": None, "eval": False, "cli": False, "dup": None}]},
+)
+finding(
+    "P77", ["C01"], "open", "a parameter without description: its default is not written into the docstring in any style (the `Defaults to` sentence only rides on a description) and ReST without types writes no line for it at all - default / parameter lost on the way back",
+    witnesses={"C01": [I([["a", {"typ": "int", "doc": "the a"}], ["b", {"typ": "int", "doc": "", "default": 5}]], cells=[["google", True, False, True, False], ["rest", True, False, False, False]])]},
+)
 finding("P26", ["C07"], "open", "doctrans drops comments inside a rewritten multi-line def header")
 finding("P27", ["C07"], "open", "doctrans turns a one-line `def f(a=1): return a` into invalid Python")
 finding("P28", ["C07"], "open", "doctrans does not recognise a raw docstring r\"\"\"...\"\"\": a second string is inserted")
